@@ -13,6 +13,7 @@
   Only property theorems (C16_*) and private helpers live here; other helpers are in Lemmas/C16.lean.
 -/
 import GilVerif.Lemmas.C16
+import GilVerif.Lemmas.C16b
 import GilVerif.Props.C15
 
 namespace GilVerif.Props.C16
@@ -113,6 +114,59 @@ theorem C16_otsu_fixed_on_witnesses :
     otsuChannel .u16 true false [0, 0, 0, 0, 0, 0, 0, 0, 0] = .ok [0, 0, 0, 0, 0, 0, 0, 0, 0]
     ∧ otsuChannel .u16 true false [5, 3] = .ok [65535, 0] := ⟨by rfl, by rfl⟩
 
+/-! ### Otsu: optimality of the selected bin -/
+
+/-- the bin the variance loop of `otsu_impl` selects is the FIRST maximiser of the between-class variance `otsuVar`
+    (integer class means, as the code computes them) over all 256 candidate bins, for every histogram whose entries
+    add up to the pixel count -/
+theorem C16_otsu_optimal (hist : List Nat) (total : Int) (htot : total = cumW hist 256) :
+    ∃ T : Nat, otsuThreshold hist total = (T : Int) ∧ T < 256
+      ∧ (∀ t, t < 256 → otsuVar hist total t ≤ otsuVar hist total T)
+      ∧ (∀ t, t < T → otsuVar hist total t < otsuVar hist total T) := by
+  obtain ⟨_, _, ub, nonneg, arg⟩ := otsuInv_run hist total htot 256 (Nat.le_refl _)
+  rw [otsuThreshold_eq]
+  rcases arg with ⟨h0, hT⟩ | ⟨T, hT, hlt, hv, hpos, hfirst⟩
+  · refine ⟨0, hT, by omega, fun t ht => ?_, fun t ht => by omega⟩
+    have := ub t ht
+    have := otsuVar_nonneg hist total htot 0 (by omega)
+    omega
+  · refine ⟨T, hT, hlt, fun t ht => ?_, fun t ht => ?_⟩
+    · have := ub t ht; omega
+    · have := hfirst t ht; omega
+
+/-- the histogram `otsu_impl` builds has 256 bins that add up to the number of pixels (hypothesis of `C16_otsu_optimal`) -/
+theorem C16_otsu_histogram_total (c : Ch) (tm : Bool) (mn mx : Int) (pixels : List Int) (hist : List Nat)
+    (h : buildHist c tm mn mx pixels = .ok hist) : hist.length = 256 ∧ cumW hist 256 = (pixels.length : Int) :=
+  buildHist_total c tm mn mx pixels hist h
+
+/-- end to end: the value `otsu_impl` hands to `threshold_binary` is the first variance-maximising bin of the histogram of
+    the pixels (rescaled to the scanned range for unsigned 16-bit sources), for every image of every size -/
+theorem C16_otsu_threshold_maximises (c : Ch) (pixels : List Int) (v : Int) (h : otsuValue c true pixels = .ok v) :
+    ∃ (hist : List Nat) (T : Nat),
+      buildHist c true (if c.scans then scanMinMax true (c.hi, c.lo) pixels else (c.hi, c.lo)).1
+        (if c.scans then scanMinMax true (c.hi, c.lo) pixels else (c.hi, c.lo)).2 pixels = .ok hist
+      ∧ cumW hist 256 = (pixels.length : Int) ∧ T < 256
+      ∧ (∀ t, t < 256 → otsuVar hist pixels.length t ≤ otsuVar hist pixels.length T)
+      ∧ (∀ t, t < T → otsuVar hist pixels.length t < otsuVar hist pixels.length T)
+      ∧ v = (if c = .u16 then c.wrap (otsu_rescale_u16 T
+                (if c.scans then scanMinMax true (c.hi, c.lo) pixels else (c.hi, c.lo)).1
+                (if c.scans then scanMinMax true (c.hi, c.lo) pixels else (c.hi, c.lo)).2) else c.wrap T) := by
+  unfold otsuValue at h
+  simp only at h
+  cases hb : buildHist c true (if c.scans then scanMinMax true (c.hi, c.lo) pixels else (c.hi, c.lo)).1
+      (if c.scans then scanMinMax true (c.hi, c.lo) pixels else (c.hi, c.lo)).2 pixels with
+  | error e => rw [hb] at h; cases h
+  | ok hist =>
+    rw [hb] at h
+    have htot := (C16_otsu_histogram_total c true _ _ pixels hist hb).2
+    obtain ⟨T, hT, hlt, hmax, hfirst⟩ := C16_otsu_optimal hist pixels.length htot.symm
+    refine ⟨hist, T, rfl, htot, hlt, hmax, hfirst, ?_⟩
+    simp only [bind, Except.bind] at h
+    rw [hT] at h
+    by_cases hc : c = Ch.u16
+    · rw [if_pos hc] at h; rw [if_pos hc]; exact (Except.ok.inj h).symm
+    · rw [if_neg hc] at h; rw [if_neg hc]; exact (Except.ok.inj h).symm
+
 /-! ### morphology: lattice laws for min / max over a neighbourhood relation -/
 
 theorem C16_erode_le_src_le_dilate {P : Type} (pts : List P) (nb : P → P → Bool) (f : P → Int) (p : P) :
@@ -167,6 +221,31 @@ theorem C16_open_close_idempotent {P : Type} (pts : List P) (nb : P → P → Bo
   constructor
   · exact dilateP_congr pts nb _ _ p (erode_dilate_erode pts nb f hsym p hp) (fun q hq => erode_dilate_erode pts nb f hsym q hq)
   · exact erodeP_congr pts nb _ _ p (dilate_erode_dilate pts nb f hsym p hp) (fun q hq => dilate_erode_dilate pts nb f hsym q hq)
+
+/-- duality under complement (K − ·, e.g. K = 255 for 8-bit, K = 0 for negation): dilating the complement is the complement of
+    the erosion and vice versa; ANY neighbourhood relation (any structuring element), any point set -/
+theorem C16_erode_dilate_duality {P : Type} (pts : List P) (nb : P → P → Bool) (f : P → Int) (K : Int) (p : P) :
+    dilateP pts nb (fun q => K - f q) p = K - erodeP pts nb f p
+    ∧ erodeP pts nb (fun q => K - f q) p = K - dilateP pts nb f p := by
+  unfold dilateP erodeP
+  constructor
+  · rw [← maxOver_compl, List.map_map]; rfl
+  · rw [← minOver_compl, List.map_map]; rfl
+
+/-- `dilate` / `erode` with m + n iterations = n iterations applied to the result of m iterations (any structuring element) -/
+theorem C16_morph_iterations_compose (w h : Nat) (ker : List Int) (ks cy cx m n : Nat) (plane : List Int) :
+    dilate w h ker ks cy cx (m + n) plane = dilate w h ker ks cy cx n (dilate w h ker ks cy cx m plane)
+    ∧ erode w h ker ks cy cx (m + n) plane = erode w h ker ks cy cx n (erode w h ker ks cy cx m plane)
+    ∧ dilate w h ker ks cy cx 0 plane = plane ∧ erode w h ker ks cy cx 0 plane = plane :=
+  ⟨iterate_add _ m n plane, iterate_add _ m n plane, rfl, rfl⟩
+
+/-- the symmetry hypothesis of `C16_opening_le_src_le_closing` is needed: `morph_impl` uses the SAME (not the reflected)
+    structuring element for dilation and erosion, so with the one-sided element {self, right neighbour} the opening
+    of [0, 5, 5] is [5, 5, 5] (not ≤ src) and the closing of [5, 0, 0] is [0, 0, 0] (not ≥ src) -/
+theorem C16_opening_asymmetric_witness :
+    opening 3 1 [0, 0, 0, 1, 0, 0, 0, 0, 0] 3 1 1 [0, 5, 5] = [5, 5, 5]
+    ∧ closing 3 1 [0, 0, 0, 1, 0, 0, 0, 0, 0] 3 1 1 [5, 0, 0] = [0, 0, 0]
+    ∧ pointSymmetric [0, 0, 0, 1, 0, 0, 0, 0, 0] 3 1 1 = false := by decide
 
 /-! ### morphology: the `morph_impl` model -/
 
@@ -371,6 +450,16 @@ theorem C16_median_rank (vals : List Int) (hne : vals ≠ []) : isMedian vals (m
   rw [← c1, ← c2]
   exact hr
 
+/-- the value `median_filter` writes is one of the window's values (never an interpolated or out-of-window value) -/
+theorem C16_median_mem (vals : List Int) (hne : vals ≠ []) : medianOf vals ∈ vals := by
+  unfold medianOf
+  have hperm := List.mergeSort_perm vals (fun a b => decide (a ≤ b))
+  have hlen : (vals.mergeSort (fun a b => decide (a ≤ b))).length = vals.length := List.length_mergeSort vals
+  have hpos : 0 < vals.length := List.length_pos_iff.mpr hne
+  have hk : vals.length / 2 < (vals.mergeSort (fun a b => decide (a ≤ b))).length := by rw [hlen]; omega
+  rw [List.getD_eq_getElem?_getD, List.getElem?_eq_getElem hk]
+  exact hperm.mem_iff.mp (List.getElem_mem hk)
+
 /-- the window `median_filter` sorts is the k×k neighbourhood of (x, y) under edge replication -/
 theorem C16_median_window (src : Int → Int → Int) (w h k : Nat) (x y : Nat) (hx : x < w) (hy : y < h) :
     medianWindow src w h k x y = medianWindowSpec src w h k x y := by
@@ -418,6 +507,10 @@ example : ∀ r c, r < 3 → c < 3 → [0, 1, 0, 1, 1, 1, 0, 1, (0:Int)].getD (r
   have h2 : c = 0 ∨ c = 1 ∨ c = 2 := by omega
   rcases h1 with rfl | rfl | rfl <;> rcases h2 with rfl | rfl | rfl <;> decide
 example : morph 3 3 [0, 1, 0, 1, 1, 1, 0, 1, 0] 3 1 1 true [1, 2, 3, 4, 5, 6, 7, 8, 9] = [4, 5, 6, 7, 8, 9, 8, 9, 9] := by decide
+set_option maxRecDepth 100000 in
+/-- hypothesis of `C16_otsu_optimal` on a concrete two-level histogram (3 pixels in bin 0, 2 in bin 255): bin 0 is selected -/
+example : ((3 : Int) + 2 = cumW ([3] ++ List.replicate 254 0 ++ [2]) 256) ∧ otsuThreshold ([3] ++ List.replicate 254 0 ++ [2]) 5 = 0
+    ∧ otsuVar ([3] ++ List.replicate 254 0 ++ [2]) 5 0 = 3 * 2 * 255 * 255 := by decide
 example : isMedian [9, 1, 5, 3, 7] 5 = true ∧ isMedian [9, 1, 5, 3, 7] 7 = false ∧ [9, 1, 5, 3, (7:Int)] ≠ [] := by decide
 
 end GilVerif.Props.C16
